@@ -83,7 +83,7 @@ def main(tier, seed):
             plans.append(('counts <= 4', 4, False, 1, 12, None))
         for label, maxn, rich, nseeds, every, counts in plans:
             res = engine.tlc_replay(rep, pool, 'MC_Gen', pipe_worker,
-                                    consts=dict(MaxN=maxn, NumInsts={1, 2}, Perturb=False, Generate=False,
+                                    consts=dict(MaxN=maxn, MinLen=1, NumInsts={1, 2}, Perturb=False, Generate=False,
                                                 TypesUsed={'ha', 'sm', 'hr', 'spa'}, Rich=rich, Spells={'short'}, **genprops.count_sets(maxn, counts)),
                                     spec='MSpec', invariants=['ParserOK', 'FamilySound', 'ExportArgs'], label=label,
                                     on_result=on_result, export_filter=mk_flt(nseeds, every, nobf=counts is not None), timeout=3000)
